@@ -59,6 +59,10 @@ def step (s : St) (fs : List String) : St × String :=
         if id = 0 ∨ (nsOrd s ns).isNone then (s, "bad-op") else
         ({ s with mounts := s.mounts ++ [{ ns, path := p, id }] }, "ok")
       | _, _, _ => (s, "bad-op")
+  | ["mountinside", ns, _p] => match parseHex? ns with
+      -- a mount path that lies inside a child namespace is refused (`Router.MountConflict`): nothing changes
+      | some ns => if (nsOrd s ns).isNone then (s, "bad-op") else (s, "refused")
+      | none => (s, "bad-op")
   | ["remount", id, ns, p] => match id.toNat?, parseHex? ns, parseHex? p with
       | some id, some ns, some p =>
         if (nsOrd s ns).isNone ∨ ¬ s.mounts.any (·.id == id) then (s, "bad-op") else
